@@ -219,15 +219,31 @@ func (ChainedContextualSubs) isGSUBLookup()  {}
 func (ExtensionSubs) isGSUBLookup()          {}
 func (ReverseChainSingleSubs) isGSUBLookup() {}
 
+// coverageLen returns 0 for a nil (missing) coverage
+func coverageLen(cov Coverage) int {
+	if cov == nil {
+		return 0
+	}
+	return cov.Len()
+}
+
+// classDefExtent returns 0 for a nil (missing) class definition
+func classDefExtent(cl ClassDef) int {
+	if cl == nil {
+		return 0
+	}
+	return cl.Extent()
+}
+
 func (ms MultipleSubs) Sanitize() error {
-	if exp, got := ms.Coverage.Len(), len(ms.Sequences); exp != got {
+	if exp, got := coverageLen(ms.Coverage), len(ms.Sequences); exp != got {
 		return fmt.Errorf("GSUB: invalid MultipleSubs sequences count (%d != %d)", exp, got)
 	}
 	return nil
 }
 
 func (ls LigatureSubs) Sanitize() error {
-	if exp, got := ls.Coverage.Len(), len(ls.LigatureSets); exp != got {
+	if exp, got := coverageLen(ls.Coverage), len(ls.LigatureSets); exp != got {
 		return fmt.Errorf("GSUB: invalid LigatureSubs sets count (%d != %d)", exp, got)
 	}
 	return nil
@@ -241,7 +257,7 @@ func (cs ContextualSubs) Sanitize(lookupCount uint16) error {
 }
 
 func (rs ReverseChainSingleSubs) Sanitize() error {
-	if exp, got := rs.coverage.Len(), len(rs.SubstituteGlyphIDs); exp != got {
+	if exp, got := coverageLen(rs.coverage), len(rs.SubstituteGlyphIDs); exp != got {
 		return fmt.Errorf("GSUB: invalid ReverseChainSingleSubs glyphs count (%d != %d)", exp, got)
 	}
 	return nil
@@ -331,7 +347,7 @@ func (ExtensionPos) isGPOSLookup()         {}
 
 func (sp *SinglePos) Sanitize() error {
 	if f2, isFormat2 := sp.Data.(SinglePosData2); isFormat2 {
-		if exp, got := f2.coverage.Len(), len(f2.ValueRecords); exp != got {
+		if exp, got := coverageLen(f2.coverage), len(f2.ValueRecords); exp != got {
 			return fmt.Errorf("GPOS: invalid SinglePos values count (%d != %d)", exp, got)
 		}
 	}
@@ -341,14 +357,14 @@ func (sp *SinglePos) Sanitize() error {
 func (pp *PairPos) Sanitize() error {
 	if f1, isFormat1 := pp.Data.(PairPosData1); isFormat1 {
 		// there are fonts with to much PairSets : accept it
-		if exp, got := f1.coverage.Len(), len(f1.PairSets); exp > got {
+		if exp, got := coverageLen(f1.coverage), len(f1.PairSets); exp > got {
 			return fmt.Errorf("GPOS: invalid PairPos1 sets count (%d > %d)", exp, got)
 		}
 	} else if f2, isFormat2 := pp.Data.(PairPosData2); isFormat2 {
-		if exp, got := f2.ClassDef1.Extent(), int(f2.class1Count); exp != got {
+		if exp, got := classDefExtent(f2.ClassDef1), int(f2.class1Count); exp != got {
 			return fmt.Errorf("GPOS: invalid PairPos2 class1 count (%d != %d)", exp, got)
 		}
-		if exp, got := f2.ClassDef2.Extent(), int(f2.class2Count); exp != got {
+		if exp, got := classDefExtent(f2.ClassDef2), int(f2.class2Count); exp != got {
 			return fmt.Errorf("GPOS: invalid PairPos2 class2 count (%d != %d)", exp, got)
 		}
 	}
@@ -356,10 +372,10 @@ func (pp *PairPos) Sanitize() error {
 }
 
 func (mp *MarkBasePos) Sanitize() error {
-	if exp, got := mp.markCoverage.Len(), len(mp.MarkArray.MarkRecords); exp != got {
+	if exp, got := coverageLen(mp.markCoverage), len(mp.MarkArray.MarkRecords); exp != got {
 		return fmt.Errorf("GPOS: invalid MarkBasePos marks count (%d != %d)", exp, got)
 	}
-	if exp, got := mp.BaseCoverage.Len(), len(mp.BaseArray.baseRecords); exp != got {
+	if exp, got := coverageLen(mp.BaseCoverage), len(mp.BaseArray.baseRecords); exp != got {
 		return fmt.Errorf("GPOS: invalid MarkBasePos marks count (%d != %d)", exp, got)
 	}
 	if err := mp.BaseArray.Anchors().sanitizeOffsets(); err != nil {
@@ -370,10 +386,10 @@ func (mp *MarkBasePos) Sanitize() error {
 }
 
 func (mp *MarkLigPos) Sanitize() error {
-	if exp, got := mp.MarkCoverage.Len(), len(mp.MarkArray.MarkAnchors); exp != got {
+	if exp, got := coverageLen(mp.MarkCoverage), len(mp.MarkArray.MarkAnchors); exp != got {
 		return fmt.Errorf("GPOS: invalid MarkBasePos marks count (%d != %d)", exp, got)
 	}
-	if exp, got := mp.LigatureCoverage.Len(), len(mp.LigatureArray.LigatureAttachs); exp != got {
+	if exp, got := coverageLen(mp.LigatureCoverage), len(mp.LigatureArray.LigatureAttachs); exp != got {
 		return fmt.Errorf("GPOS: invalid MarkBasePos marks count (%d != %d)", exp, got)
 	}
 
